@@ -127,32 +127,27 @@ Definition trig_offline_setsub (x : state) (o : op) : Prop :=
   | _, _ => False
   end.
 
+Definition cur_cache (x : state) : cache := match ca x with Some c => c | None => load (st x) end.
+
 (* #4 banned-user-request-rejected-but-want-changed: own {sub}/{set sub} of a cached user whose grant has no J *)
 Definition trig_banned (sm : sessmap) (x : state) (o : op) : Prop :=
-  match ca x with
-  | Some c =>
-    match o with
-    | OSub sid _ _ | OSetSub sid _ _ =>
-      match alookup (sess_uid sm sid) (c_users c) with
-      | Some p => is_joiner (p_given p) = false
-      | None => False
-      end
-    | _ => False
+  match o with
+  | OSub sid _ _ | OSetSub sid _ _ =>
+    match alookup (sess_uid sm sid) (c_users (cur_cache x)) with
+    | Some p => is_joiner (p_given p) = false
+    | None => False
     end
-  | None => False
+  | _ => False
   end.
 
 (* a subscriber with O in the grant but not in want: his next own {sub}/{set sub} with O accepts the ownership *)
 Definition pending (p0 : pud) : Prop := is_owner (p_given p0) = true /\ is_owner (p_want p0) = false.
 
-Definition cur_cache (x : state) : cache := match ca x with Some c => c | None => load (st x) end.
-
 (* requests whose handler makes more than one store write, or ignores a store error: under a fault
-   plan these can leave a partial write (#6-#9).  Excluded: a fault in a publish or a delete that is
-   not already the first store call; any fault in the own {sub}/{set sub} of a pending transferee. *)
+   plan these can leave a partial write (#6-#9).  Excluded: a fault in the 2nd or 3rd store call of a publish or a delete (a fault in the 1st is harmless); any fault in the own {sub}/{set sub} of a pending transferee. *)
 Definition fault_ok (sm : sessmap) (f : fault) (x : state) (o : op) : Prop :=
   match o with
-  | OPub _ _ _ | ODelMsg _ _ _ => f = NoFault \/ fails f 1 = true
+  | OPub _ _ _ | ODelMsg _ _ _ => (fails f 1 = false /\ fails f 2 = false /\ fails f 3 = false) \/ fails f 1 = true
   | OSub sid _ _ | OSetSub sid _ _ =>
     f = NoFault \/ match alookup (sess_uid sm sid) (c_users (cur_cache x)) with Some p => ~ pending p | None => True end
   | _ => True
